@@ -16,6 +16,7 @@ import (
 	"runtime"
 	"sort"
 	"strings"
+	"sync"
 	"sync/atomic"
 	"testing"
 	"testing/synctest"
@@ -209,6 +210,7 @@ type Sim struct {
 	portTable map[string]*portEntry
 	upstreams map[string]Upstream
 	noJumps   bool
+	pools     map[*sync.Pool][]any // free lists of woven sync.Pools (PoolGet/PoolPut)
 	jumps     int // clock jumps injected so far
 	endSim   time.Duration
 
